@@ -234,6 +234,35 @@ def cmd_check(args):
         suffix = '' if (wit and wit.get('found')) else ' no-failing-input-found'
         out_lines.append('VIOLATION property=%s replay=%s%s' % (prop, rp, suffix))
 
+    # ---- bounded stand-in for functions that fell OUTSIDE the verifier's reach (lost anchor, construct outside the Verus
+    # subset, resource limit): a bounded scenario enumeration of the real combinator family of that unit (/verif/witness).
+    # It can only turn "undecided" into a VIOLATION with a concrete failing input replayed on the real code; if it
+    # finds nothing the unit stays undecided (exit 2) -- it is never counted as proved.
+    standins = []
+    if undecided and not real:
+        seen_u = set()
+        for u in undecided:
+            key = (u.get('unit'), u.get('cfg'))
+            if not u.get('unit') or key in seen_u or u.get('kind') == 'vacuous':
+                continue
+            seen_u.add(key)
+            f = dict(unit=u['unit'], cfg=u.get('cfg', 'std'), fn=u.get('fn'), tags=['UNDECIDED_' + str(u.get('kind'))], line=u.get('line') or 0,
+                     src=None, message='verifier undecided: ' + str(u.get('message'))[:400], rendered=str(u.get('message')), genfile=u.get('file'))
+            try:
+                from . import witness
+                wit = witness.search(prop, f)
+            except Exception as e:
+                wit = dict(found=False, note='witness search failed: %r' % (e,))
+            standins.append(dict(unit=u['unit'], cfg=u.get('cfg'), found=bool(wit.get('found')), bounds='families with <= 3 children (tuples <= 3), scripted child steps and driver schedules, budget %s scenarios, seed %s' % (os.environ.get('VX_WITNESS_BUDGET', '20000'), seed)))
+            if wit.get('found'):
+                rp = os.path.join(replay_dir, '%s-%s-%s-bounded-standin.json' % (prop, u['unit'], u.get('cfg')))
+                with open(rp, 'w') as fh:
+                    json.dump(dict(property=prop, obligation=['(verifier undecided for this unit: %s)' % str(u.get('message'))[:300]],
+                                   unit=u['unit'], config=u.get('cfg'), verifier='verus: undecided; bounded stand-in: witness scenario enumeration on the real crate',
+                                   verifier_output=str(u.get('message')), witness=wit), fh, indent=1)
+                out_lines.append('VIOLATION property=%s replay=%s' % (prop, rp))
+                real.append(f)
+
     # ---- bounded stand-in (thorough tier only): Kani on the real unsafe storage leaves ----
     bounded = []
     if tier == 'thorough' and prop in KANI_HARNESSES:
@@ -263,6 +292,7 @@ def cmd_check(args):
             verus_runs=dict(executed_now=cache_misses, reused_identical_file=cache_hits, note='quick tier reuses the verdict of a byte-identical generated file (same Verus version, rlimit, seed) from an earlier check invocation on this machine; thorough tier always executes; VX_NO_CACHE=1 disables'),
             functions_under_contract=sorted(set(functions)),
             by_backend=dict(verus_z3=n_ok, kani_cbmc_complete=0, kani_cbmc_bounded=sum(1 for b in bounded if b['status'] == 'SUCCESSFUL')),
+            bounded_standins_for_undecided_units=standins,
             bounded_checks=[dict(harness=b['harness'], status=b['status'], bound=b['bound'], wall_s=b['wall_s']) for b in bounded],
             solver_time_s=round(solver_ms / 1000.0, 2),
             vacuity_twins=dict(expected_refuted=vac_expected, refuted=vac_refuted),
